@@ -48,7 +48,7 @@ CLAIMED = {
              'exactly; anything beyond 63 weeks is ValueError. Model tied to protocol.py by differential runs over boundary sweeps, random values '
              'and a malformed-string stream (exception class compared).',
         note='Trusted: Coq kernel + vm_compute sweeps, CPython datetime/strftime/int() semantics as modelled (sampled by the differential run), harness. '
-             'Proved for the code after fix ff64406 (the pinned code failed the absolute part). No axioms.',
+             'Proved for the code after fix e177386 (the pinned code failed the absolute part). No axioms.',
         technique='Coq proof (digit printing/parsing lemmas by finite sweep, lia with Euclidean division); differential correspondence',
         design='6 (C17)'),
     'C20': dict(
@@ -73,9 +73,23 @@ CLAIMED = {
              'differential runs of the split functions and by running the real ESME sender (fake transport) and parsing the written PDUs with an '
              'independent SMPP reference parser.',
         note='Trusted: Coq kernel, translator (tables, size constants), harness + smppref.py. Domain: default alphabet gsm0338, automatic encoding, '
-             'strict error handling. Proved for the code after fix 7e848a9 (the pinned code cut GSM texts on characters). No axioms.',
+             'strict error handling. Proved for the code after fix 164ba1d (the pinned code cut GSM texts on characters). No axioms.',
         technique='Coq proof: generic chunking invariants by induction on fuel, byte/unit commutation for UTF-16, decoder-state lemmas; differential + wire-level correspondence',
         design='6 (C08)'),
+    'C18': dict(
+        text='Coq theorems (Props/C18.v) over an exact-rational model of SimpleRateLimiter (per clock reading: credit, then pass or sleep) and '
+             'SimpleThrottleHandler: for EVERY rate r>0 (also below 1/s), every strictly increasing clock and every window [a,a+T], at most '
+             'r*T+r+1 messages pass inside the window whatever happened before, the limiter never raises, and a waiting message passes after at '
+             'most k one-second sleeps whenever k*r>1 (k=floor(1/r)+1); the throttle decision is characterised state-wise (denied iff >= sample_size '
+             'responses since the window restarted and the two-decimal percentage exceeds deny_request_at; restart rule), with the rounding effect '
+             'bounded by 0.005. Tied to the code by running the real classes under a scripted clock (time.monotonic/asyncio.sleep replaced in '
+             'their modules) and by driving the real ESME sender with a recording limiter/throttle handler (every submit_sm write has its own '
+             'allow then limit; nothing is written after a denial).',
+        note='Trusted: Coq kernel (QArith, lra/nra), harness; binary64 rounding is not modelled (inputs are dyadic; histories with an exact rounding '
+             'tie are skipped and counted); strictly increasing clock readings assumed (equal readings raise ZeroDivisionError in the code). The sender-level '
+             'statement is checked on traces of the real sender, not proved (session model pending). Proved for the code after fixes b4cec97, dd102c0. No axioms.',
+        technique='Coq proof: potential/supply argument by induction over clock readings (Q, lra/nra), liveness by state-invariance of failed readings; scripted-clock correspondence',
+        design='6 (C18)'),
 }
 
 PENDING_REASON = 'check not built yet in this round (planned, see DESIGN.md section 6); not claimed until its proof and correspondence run exist'
